@@ -73,10 +73,14 @@ _tmpdir = None
 
 
 def _tmpfile():
+    """per-process scratch file below the run's scratch directory (created and removed by check.py)"""
     global _tmpdir
     if _tmpdir is None:
-        base = "/dev/shm" if os.path.isdir("/dev/shm") else None
-        _tmpdir = tempfile.mkdtemp(prefix="verif_agg_", dir=base)
+        base = os.environ.get("VERIF_SCRATCH")
+        if base and os.path.isdir(base):
+            _tmpdir = base
+        else:
+            _tmpdir = tempfile.mkdtemp(prefix="verif_agg_", dir="/dev/shm" if os.path.isdir("/dev/shm") else None)
     return os.path.join(_tmpdir, "m%d.cmake" % os.getpid())
 
 
